@@ -251,10 +251,10 @@ impl Monitor for C05 {
                 v.push(format!("shape:{r}:{c}"));
             }
         }
-        for i in 0..tier.pick(3000, 200_000) {
+        for i in 0..tier.pick(10_000, 200_000) {
             v.push(format!("rndm:{i}"));
         }
-        for i in 0..tier.pick(600, 30_000) {
+        for i in 0..tier.pick(2000, 30_000) {
             v.push(format!("rnds:{i}"));
         }
         v
